@@ -8,6 +8,8 @@
  *   readers   N threads iterating / querying / seeking one open reader through their own iterators
  *   single    one caller thread, several pooled writers and a pooled sorter on one pool (the pool's own handoffs)
  *   abandon   pooled sorters with dispatched chunks destroyed without ever being iterated or written
+ *   manyjobs  a sorter on a pool of 256 threads with 256 chunk jobs all in flight at once (each parked inside the merge callback)
+ *             when the iterator is made: the iterator must wait for every one of them
  *   sortedge  pooled sorters iterated right after n adds, for a run of consecutive n longer than one spill period: for one of
  *             them the last add is the one that dispatches its batch (nothing buffered when the iterator is made)
  * Every scenario checks its functional result too (files read back completely, sorter output count).
@@ -23,6 +25,7 @@
 #include <stdlib.h>
 #include <string.h>
 #include <unistd.h>
+#include <time.h>
 #include <mtbl.h>
 
 static pthread_barrier_t bar;
@@ -40,6 +43,28 @@ static void merge_cat(void *clos, const uint8_t *k, size_t lk, const uint8_t *v0
 	*out = malloc(n0 + n1 + 1);
 	memcpy(*out, v0, n0); memcpy(*out + n0, v1, n1);
 	*nout = n0 + n1;
+}
+
+/* manyjobs: the merge callback (run by the pool's workers while they write a chunk) parks until released */
+static pthread_mutex_t park_m = PTHREAD_MUTEX_INITIALIZER;
+static pthread_cond_t park_c = PTHREAD_COND_INITIALIZER;
+static int parked, released;
+static void merge_park(void *clos, const uint8_t *k, size_t lk, const uint8_t *v0, size_t n0, const uint8_t *v1, size_t n1, uint8_t **out, size_t *nout) {
+	pthread_mutex_lock(&park_m);
+	parked++;
+	pthread_cond_broadcast(&park_c);
+	while (!released) pthread_cond_wait(&park_c, &park_m);
+	pthread_mutex_unlock(&park_m);
+	merge_cat(clos, k, lk, v0, n0, v1, n1, out, nout);
+}
+static void *releaser(void *a) {
+	(void)a;
+	usleep(300000);
+	pthread_mutex_lock(&park_m);
+	released = 1;
+	pthread_cond_broadcast(&park_c);
+	pthread_mutex_unlock(&park_m);
+	return NULL;
 }
 
 static void *writer_thread(void *a) {
@@ -197,6 +222,43 @@ int main(int argc, char **argv) {
 			if (round == 2) usleep(300000);
 			mtbl_sorter_destroy(&s);
 		}
+		mtbl_threadpool_destroy(&pool);
+	} else if (!strcmp(sc, "manyjobs")) {
+		int njobs = 256;
+		alarm(60);	/* the scenario takes a second; a run that does not end is ended here */
+		pool = mtbl_threadpool_init((size_t)njobs);
+		struct mtbl_sorter_options *o = mtbl_sorter_options_init();
+		mtbl_sorter_options_set_max_memory(o, 80);		/* two entries make a chunk (45 bytes of accounting each) */
+		mtbl_sorter_options_set_temp_dir(o, dir);
+		mtbl_sorter_options_set_merge_func(o, merge_park, NULL);
+		mtbl_sorter_options_set_threadpool(o, pool);
+		struct mtbl_sorter *s = mtbl_sorter_init(o);
+		mtbl_sorter_options_destroy(&o);
+		for (int i = 0; i < 2 * njobs; i++) {
+			char key[32]; uint8_t val[24];
+			snprintf(key, sizeof key, "j%04d", i / 2);		/* the two entries of a chunk share their key: merged by the worker */
+			memset(val, i, sizeof val);
+			mtbl_res r = mtbl_sorter_add(s, (uint8_t *)key, strlen(key), val, sizeof val);
+			assert(r == mtbl_res_success);
+		}
+		pthread_mutex_lock(&park_m);
+		for (int spins = 0; parked < njobs && spins < 100; spins++) {	/* every chunk job is to be inside the merge callback */
+			struct timespec ts; clock_gettime(CLOCK_REALTIME, &ts); ts.tv_nsec += 100000000; if (ts.tv_nsec >= 1000000000) { ts.tv_sec++; ts.tv_nsec -= 1000000000; }
+			pthread_cond_timedwait(&park_c, &park_m, &ts);
+		}
+		int got = parked;
+		pthread_mutex_unlock(&park_m);
+		if (got != njobs) { printf("SCENARIO-NOT-REACHED parked=%d\n", got); released = 1; pthread_cond_broadcast(&park_c); return 4; }
+		pthread_t rel;
+		pthread_create(&rel, NULL, releaser, NULL);
+		struct mtbl_iter *it = mtbl_sorter_iter(s);
+		assert(it);
+		const uint8_t *k, *v; size_t lk, lv; int c = 0; size_t bytes = 0;
+		while (mtbl_iter_next(it, &k, &lk, &v, &lv) == mtbl_res_success) { c++; bytes += lv; }
+		if (c != njobs || bytes != (size_t)njobs * 48) __atomic_add_fetch(&failures, 1, __ATOMIC_SEQ_CST);
+		mtbl_iter_destroy(&it);
+		pthread_join(rel, NULL);
+		mtbl_sorter_destroy(&s);
 		mtbl_threadpool_destroy(&pool);
 	} else if (!strcmp(sc, "sortedge")) {
 		pool = mtbl_threadpool_init(1 + seed % 3);
